@@ -2,10 +2,14 @@ package main
 
 import (
 	"fmt"
+	"math"
 	"regexp"
 	"sort"
+	"strconv"
 	"strings"
 	"sync"
+
+	"golang.org/x/tools/go/ssa"
 )
 
 // ---------------------------------------------------------------------------------------------
@@ -195,8 +199,14 @@ func (c *Ctx) convxRun() []*opsVerdict {
 		v.pos = c.Pos(fn.Pos())
 		for _, pair := range [][2]string{{"Integer", "Long"}, {"Integer", "Double"}, {"Long", "Double"}, {"Float", "Double"}, {"Integer", "Float"}} {
 			v.runs++
-			a := h.variant(pair[0], "a")
-			b := h.variant(pair[0], "b")
+			// constants: whether results are shared does not depend on the value, and a value-dependent branch
+			// inside a conversion must not leave this clause undecided
+			var pa, pb interface{} = int64(5), int64(7)
+			if pair[0] == "Float" {
+				pa, pb = float64(1.5), float64(2.5)
+			}
+			a := h.variant(pair[0], pa)
+			b := h.variant(pair[0], pb)
 			r1, o1 := h.m.Call(fn, h.mgr, a, h.vtByNm[pair[1]])
 			t1, ok1 := r1.(mTuple)
 			if o1.kind != "ok" || !ok1 {
@@ -214,7 +224,7 @@ func (c *Ctx) convxRun() []*opsVerdict {
 			after := h.payloadOf(t1[0])
 			if eq, known := h.m.equal(t1[0], t2[0]); (known && eq) || before != after {
 				if v.bad == "" {
-					v.bad = fmt.Sprintf("%s.Convert(%s a, %s) held %s; after Convert(%s b, %s) the same result holds %s: conversions share their result variant", manager, pair[0], pair[1], before, pair[0], pair[1], after)
+					v.bad = fmt.Sprintf("%s.Convert(%s %v, %s) held %s; after Convert(%s %v, %s) the same result holds %s: conversions share their result variant", manager, pair[0], pa, pair[1], before, pair[0], pb, pair[1], after)
 				}
 			}
 		}
@@ -275,6 +285,32 @@ func (c *Ctx) convxRun() []*opsVerdict {
 			v.pos = c.Pos(fn.Pos())
 			ints := []interface{}{int64(0), int64(1), int64(-1), int64(255), int64(256), int64(65536), int64(2147483647), int64(2147483648), int64(-2147483648), int64(-2147483649), int64(3000000000), int64(4294967296)}
 			big := []interface{}{int64(1) << 53, -(int64(1) << 53), int64(1) << 40}
+			// unit-scaled conversions (a count of milliseconds is a time span of count x 10^6 ns, a count of seconds a
+			// date-time): counts that are not multiples of a power of two, whose scaled value lies beyond 2^53 (not exact
+			// in a double), of both signs, up to the largest count whose time span exists; and whole seconds beyond 2^53
+			counts := func(unit int64) []interface{} {
+				out := append([]interface{}{}, ints...)
+				for _, n := range []int64{9000000001, 9007199255, 16777217, 123456789013, 1000000000001, 9000000000009, 9000000000013, 7777777777777, math.MaxInt64/unit - 1, math.MaxInt64 / unit} {
+					if n <= math.MaxInt64/unit {
+						out = append(out, n, -n)
+					}
+				}
+				return out
+			}
+			secs := append(counts(1), int64(1)<<53+1, -(int64(1)<<53 + 1), int64(9000000000000001), int64(1)<<62+1)
+			// the host's time.Unix on constants is a date-time that remembers its seconds (time.Unix(s, 0).Unix() == s for every s)
+			reUnix := regexp.MustCompile(`^time\.Unix\((-?[0-9]+),0\)$`)
+			h.m.external = func(m *mach, fn *ssa.Function, args []mv) (mv, bool) {
+				if fnFullName(fn) == "time.Time.Unix" && len(args) == 1 {
+					if sy, ok := args[0].(*mSym); ok {
+						if mm := reUnix.FindStringSubmatch(sy.name); mm != nil {
+							n, err := strconv.ParseInt(mm[1], 10, 64)
+							return n, err == nil
+						}
+					}
+				}
+				return nil, false
+			}
 			chains := []struct {
 				t1, t2 string
 				vals   []interface{}
@@ -286,13 +322,15 @@ func (c *Ctx) convxRun() []*opsVerdict {
 				{"Float", "Double", []interface{}{float64(0), float64(1.5), float64(-0.25), float64(float32(0.1)), float64(float32(3.0e38)), float64(float32(1e-40))}},
 				{"Boolean", "Integer", []interface{}{true, false}},
 				{"Boolean", "Long", []interface{}{true, false}},
-				{"Integer", "TimeSpan", ints},
-				{"Long", "TimeSpan", ints},
+				{"Integer", "TimeSpan", counts(1000000)},
+				{"Long", "TimeSpan", counts(1000000)},
+				{"Integer", "DateTime", secs},
+				{"Long", "DateTime", secs},
 			}
 			for _, ch := range chains {
 				for _, val := range ch.vals {
 					v.runs++
-					where := fmt.Sprintf("%s %v -> %s -> %s", ch.t1, val, ch.t2, ch.t1)
+					where := fmt.Sprintf("%s.Convert, %s %v -> %s -> %s", manager, ch.t1, val, ch.t2, ch.t1)
 					src := h.variant(ch.t1, val)
 					want := h.payloadOf(src)
 					r1, o1 := h.m.Call(fn, h.mgr, src, h.vtByNm[ch.t2])
@@ -336,7 +374,83 @@ func (c *Ctx) convxRun() []*opsVerdict {
 						continue
 					}
 					if got := h.payloadOf(tp2[0]); got != want && v.bad == "" {
-						v.bad = fmt.Sprintf("%s: the round trip yields %s; the original value is %s", where, got, want)
+						v.bad = fmt.Sprintf("%s: the round trip yields %s; the original value is %s (every widening conversion round-trips: converting back yields the original value)", where, got, want)
+					}
+				}
+			}
+		}
+	}
+	// the type-safe whitelist on boundary values (concrete payloads): what the manager permits is a matter of the
+	// two types, not of the value - every permitted widening succeeds for every value of the source type, carries
+	// the requested type and equals what the type-unsafe manager returns for the same value
+	{
+		hs, hu := c.newVxHarness("TypeSafeVariantOperations"), c.newVxHarness("TypeUnsafeVariantOperations")
+		v := &opsVerdict{key: "variants.TypeSafeVariantOperations.Convert#whitelist-on-boundary-values"}
+		all = append(all, v)
+		fs, fu := c.lookupMethod(hs.mgrT, "Convert"), c.lookupMethod(hu.mgrT, "Convert")
+		if hs.fault != "" || hu.fault != "" || fs == nil || fu == nil {
+			v.undec = hs.fault + hu.fault + " Convert missing"
+		} else {
+			v.pos = c.Pos(fs.Pos())
+			whole := []interface{}{int64(0), int64(1), int64(-1), int64(255), int64(65536), int64(1) << 24, int64(1)<<24 + 1, -(int64(1)<<24 + 1), int64(33554431), int64(123456789), int64(-987654321),
+				int64(math.MaxInt32), int64(math.MinInt32), int64(1) << 40, int64(1)<<40 + 1, int64(1) << 53, int64(1)<<53 + 1, -(int64(1)<<53 + 1), int64(math.MaxInt64), int64(math.MinInt64)}
+			floats := []interface{}{float64(0), math.Copysign(0, -1), float64(1.5), float64(float32(0.1)), float64(float32(math.MaxFloat32)), float64(float32(math.SmallestNonzeroFloat32)), float64(float32(16777216)), math.Inf(1), math.Inf(-1)}
+			one := func(h *vxHarness, f *ssa.Function, t1 string, val interface{}, t2 string) (string, string) {
+				h.m.steps = 0
+				r, out := h.m.Call(f, h.mgr, h.variant(t1, val), h.vtByNm[t2])
+				tp, ok := r.(mTuple)
+				switch {
+				case out.kind == "panic":
+					return "panics: " + out.why, ""
+				case out.kind != "ok" || !ok || len(tp) != 2:
+					return "", out.why
+				}
+				if _, isNil := tp[1].(mNilT); !isNil {
+					code := errorCode(tp[1])
+					if code == "" {
+						code = mRender(tp[1])
+					}
+					return "fails with " + code, ""
+				}
+				if _, isNil := tp[0].(mNilT); isNil {
+					return "returns neither a result nor an error", ""
+				}
+				return "returns " + h.typeOf(tp[0]) + " " + h.payloadOf(tp[0]), ""
+			}
+			var srcs []string
+			for t1 := range convSafeWhitelist {
+				srcs = append(srcs, t1)
+			}
+			sort.Strings(srcs)
+			for _, t1 := range srcs {
+				vals := whole
+				if t1 == "Float" || t1 == "Double" {
+					vals = floats
+				}
+				for _, t2 := range convSafeWhitelist[t1] {
+					for _, val := range vals {
+						v.runs++
+						where := fmt.Sprintf("Convert(%s %v, %s)", t1, val, t2)
+						got, why := one(hs, fs, t1, val, t2)
+						ref, whyU := one(hu, fu, t1, val, t2)
+						switch {
+						case why != "":
+							if v.undec == "" {
+								v.undec = "TypeSafeVariantOperations." + where + ": " + why
+							}
+						case !strings.HasPrefix(got, "returns "+t2+" "):
+							if v.bad == "" {
+								v.bad = fmt.Sprintf("TypeSafeVariantOperations.%s %s; the type-safe manager permits the widening %s to %s, for every %s value, and the result carries exactly the requested type", where, got, t1, t2, t1)
+							}
+						case whyU != "":
+							if v.undec == "" {
+								v.undec = "TypeUnsafeVariantOperations." + where + ": " + whyU
+							}
+						case got != ref:
+							if v.bad == "" {
+								v.bad = fmt.Sprintf("TypeSafeVariantOperations.%s %s where the type-unsafe manager %s; wherever the type-safe manager succeeds it agrees with the type-unsafe one", where, got, ref)
+							}
+						}
 					}
 				}
 			}
